@@ -9,7 +9,7 @@ use vl_model::sock::{Peer, Scratch, Server, Wait};
 use vl_tsvc::t_service;
 use vl_model::wire::*;
 
-pub const RULE: &str = "request sequences over the 72-symbol alphabet (18 kinds x {none,more,oneway,more+oneway}); \
+pub const RULE: &str = "request sequences over the 76-symbol alphabet (19 kinds x {none,more,oneway,more+oneway}); \
 every sequence up to the tier's length bound at every pipelining depth 1..len through handle(), random \
 longer ones (len 3..24, random depth, three JSON spellings), and random sequences through a real unix \
 socket served by listen() with a sentinel request deciding whether the connection stayed open. \
